@@ -25,6 +25,9 @@ func classOK(got string, want string) bool {
 	case EAnyErr:
 		return errorClass(got)
 	}
+	if want == EValidation && got == EInvalidPar {
+		return true // SDK v1 client-side request validation is a validation error too
+	}
 	return got == want
 }
 
